@@ -107,6 +107,8 @@ impl Cfg {
             "M0" => Cfg::new(1, 300, 16, reuse),
             // zero for the file and block size limits
             "Z" => Cfg::new(4 << 20, 0, 0, reuse),
+            // "no limit": the largest values the option types admit
+            "MAX" => Cfg::new(4 << 20, u64::MAX, usize::MAX, reuse),
             "Zb0" => Cfg::new(4 << 20, 0, 0, reuse).with_bloom_bits(0),
             "D" => Cfg::new(4 << 20, 2 << 20, 4096, reuse),
             // every level 1..=5 overflows with its second ~150-byte file: data cascades to level 6
